@@ -832,13 +832,15 @@ func Repeat(env envs.Environment, text *types.XText, count int) types.XValue {
 		return types.NewXErrorf("must be called with a positive integer, got %d", count)
 	}
 
-	var output bytes.Buffer
-	for j := 0; j < count; j++ {
-		output.WriteString(text.Native())
+	if count > 0 && len(text.Native()) > maxRepeatLength/count {
+		return types.NewXErrorf("result would be longer than %d bytes", maxRepeatLength)
 	}
 
-	return types.NewXText(output.String())
+	return types.NewXText(strings.Repeat(text.Native(), count))
 }
+
+// the longest text that repeat will produce
+const maxRepeatLength = 1_000_000
 
 // Replace replaces up to `count` occurrences of `needle` with `replacement` in `text`.
 //
